@@ -20,15 +20,95 @@ type C07Case struct {
 	Ctx    string   `json:"ctx"`
 	Patch  string   `json:"patch"`
 	File   string   `json:"file"`
-	Header string   `json:"header"` // file variant: plain | generated | imports
-	Flags  []string `json:"flags"`  // [] | --diff | --print-only (+ --skip-import-processing) ; ["API"]
+	Header string   `json:"header"`          // file variant: plain | generated | imports
+	Flags  []string `json:"flags"`           // [] | --diff | --print-only (+ --skip-import-processing) ; ["API"]
+	Multi  []string `json:"multi,omitempty"` // several targets in one run: file kinds in path order
+}
+
+var c07MultiKinds = map[string]string{
+	"fits-long":  "package p\n\nfunc a() {\n\t_ = hole(aVeryLongArgumentName + anotherLongName)\n\tother()\n\tmore()\n}\n",
+	"fits-short": "package p\n\nvar v = hole(1)\n",
+	"misfit":     "package p\n\nfunc m(v T) {\n\tif hole(v) {\n\t}\n}\n",
+	"nomatch":    "package p\n\nfunc n() {}\n",
+}
+
+const c07MultiPatch = "@@\nvar x expression\n@@\n-hole(x)\n+x == T{}\n"
+
+// c07RunMulti: several targets in one run; whatever is on disk (or implied by the diff) afterwards parses, a file
+// whose rewrite does not parse is byte-identical, and the run reports a failure iff some file misfits.
+func c07RunMulti(env *core.Env, c *C07Case) core.Outcome {
+	mode := strings.Join(c.Flags, " ")
+	judge := func(real bool) core.Outcome {
+		o := core.Outcome{Nontrivial: true, Class: "multi/" + modeClass(c.Flags)}
+		bad := func(key, format string, a ...any) core.Outcome {
+			o.Violation = fmt.Sprintf("[files %v, flags %q] ", c.Multi, mode) + fmt.Sprintf(format, a...)
+			o.FindingKey = "C07:" + key + "/multi"
+			return o
+		}
+		tree := map[string]string{"v.patch": c07MultiPatch}
+		var names []string
+		for i, k := range c.Multi {
+			n := fmt.Sprintf("f%d.go", i)
+			names = append(names, n)
+			tree["t/"+n] = c07MultiKinds[k]
+		}
+		sb := newSandbox(env, "c07m", tree)
+		defer sb.remove()
+		r := sb.run(real, "t", append(append([]string{"-p", sb.path("v.patch")}, c.Flags...), names...), "")
+		if r.Panic != "" {
+			return bad("panic", "gopatch crashed: %s", r.Panic)
+		}
+		if (r.Exit != 0) != contains(c.Multi, "misfit") {
+			return bad("exit-status", "exit %d; a failure must be reported iff some file's rewrite does not parse; stderr %q", r.Exit, r.Stderr)
+		}
+		diffs := map[string]*drive.FileDiff{}
+		if contains(c.Flags, "--diff") {
+			ds, _, err := drive.SplitUnified(r.Stdout)
+			if err != nil {
+				return bad("diff-malformed", "--diff output malformed: %v", err)
+			}
+			for _, d := range ds {
+				diffs[d.Old] = d
+			}
+		}
+		for i, k := range c.Multi {
+			orig := c07MultiKinds[k]
+			got := sb.read("t/" + names[i])
+			if contains(c.Flags, "--diff") {
+				if got != orig {
+					return bad("dryrun-wrote", "--diff modified %s", names[i])
+				}
+				if d := diffs[names[i]]; d != nil {
+					var err error
+					if got, err = drive.ApplyUnified(orig, d); err != nil {
+						return bad("diff-does-not-apply", "--diff output for %s does not apply: %v", names[i], err)
+					}
+				}
+			}
+			if perr := parses(got); perr != nil {
+				return bad("unparseable-emitted", "%s (%s) does not parse after the run (%v):\n%s", names[i], k, perr, got)
+			}
+			switch k {
+			case "misfit", "nomatch":
+				if got != orig {
+					return bad("failure-but-file-modified", "%s (%s) must be left byte-identical, got:\n%s", names[i], k, got)
+				}
+			default:
+				if got == orig || strings.Contains(got, "hole(") {
+					return bad("healthy-file-not-patched", "%s (%s) was not patched although its rewrite is valid:\n%s", names[i], k, got)
+				}
+			}
+		}
+		return o
+	}
+	return believeIfReal(judge)
 }
 
 func init() {
 	core.Register(&core.Property{
 		ID:    "C07",
 		Level: "model_checking",
-		Rule: "universe = replacement kinds (one per ast.Expr node type: name, literal, composite literal, function literal, selector, index, slice, type assertion, call, star, unary, binary, comparison with a composite literal, key:value-free map literal, array/map/chan/func/interface/struct types, parenthesised) put (F1) in place of hole(x) in every expression slot of the context catalogue, incl. if/for/switch headers, := left side, range clause, case lists, array length; (F2) in place of a name in every name-only and every type slot x file variant {plain, generated-code header, two-import block} x {in place, --diff, --print-only} x --skip-import-processing on/off, plus the library API. " +
+		Rule: "universe = replacement kinds (one per ast.Expr node type: name, literal, composite literal, function literal, selector, index, slice, type assertion, call, star, unary, binary, comparison with a composite literal, key:value-free map literal, array/map/chan/func/interface/struct types, parenthesised) put (F1) in place of hole(x) in every expression slot of the context catalogue, incl. if/for/switch headers, := left side, range clause, case lists, array length; (F2) in place of a name in every name-only and every type slot x file variant {plain, generated-code header, two-import block} x {in place, --diff, --print-only} x --skip-import-processing on/off, plus the library API; (F3) every sequence of 2..3 targets over {fits (long), fits (short), misfit, unmatched} in one run x {in place, --diff} x --skip-import-processing. " +
 			"Oracle needs no model: whatever is emitted with success status must be accepted by go/parser (for --diff: the result of applying the diff); on a reported failure exit is non-zero, stderr names the file, the file is byte-identical and nothing was printed. non-trivial = the change applies",
 		Bounds: func(tier string) map[string]any {
 			return map[string]any{"replacements": len(c07Repls()), "expr_slots": len(gen.ExprContexts()), "type_slots": len(gen.TypeContexts())}
@@ -60,6 +140,14 @@ func c07Header(variant, src string) string {
 }
 
 func c07Gen(tier string, emit func(any)) {
+	for _, sq := range seqs([]string{"fits-long", "fits-short", "misfit", "nomatch"}, 3) {
+		if len(sq) < 2 {
+			continue
+		}
+		for _, fl := range [][]string{{}, {"--skip-import-processing"}, {"--diff"}, {"--diff", "--skip-import-processing"}} {
+			emit(&C07Case{Family: "multi", Multi: sq, Flags: fl})
+		}
+	}
 	emitAll := func(family, repl, ctx, patch, src string) {
 		for _, h := range []string{"plain", "generated", "imports"} {
 			if h != "plain" && !strings.HasPrefix(src, "package p\n") {
@@ -104,6 +192,9 @@ func parses(src string) error {
 
 func c07Run(env *core.Env, ci any) core.Outcome {
 	c := ci.(*C07Case)
+	if len(c.Multi) > 0 {
+		return c07RunMulti(env, c)
+	}
 	mode := strings.Join(c.Flags, " ")
 	o := core.Outcome{}
 	bad := func(key, format string, a ...any) core.Outcome {
